@@ -54,6 +54,11 @@ def read_model_parameters(
                 soil.profile.loc[i, "dz"] += 0.1
                 soil.fill_nan()
                 break
+        else:
+            # every compartment is already 0.25 m or thicker: keep deepening the
+            # bottom compartment instead of looping forever
+            soil.profile.loc[soil.profile.index[-1], "dz"] += 0.1
+            soil.fill_nan()
 
     # TODO: Why all these commented lines? The model does not allow rotations now?
     ###########
